@@ -5,6 +5,7 @@ concrete truth value / index / hash, the engine asks z3 which outcomes are feasi
 current path condition, takes one and queues the others as *decision prefixes*; a queued prefix is
 explored by re-running the harness from the start and replaying the recorded decisions.
 """
+import os
 import time
 from fractions import Fraction
 
@@ -42,6 +43,54 @@ class Stats:
 
     def as_dict(self):
         return dict(vars(self))
+
+
+# ---------------------------------------------------------------- second solver (cvc5 binary) on sampled obligations
+CROSS = {"every": int(os.environ.get("VF_CROSS_EVERY", "0") or 0), "cap": int(os.environ.get("VF_CROSS_CAP", "60") or 60), "n": 0, "seen": 0,
+         "agree": 0, "unknown": 0, "disagree": 0, "seconds": 0.0, "disagreements": []}
+
+
+def cross_check(constraints, label):
+    """Re-decide an obligation z3 has just proved (`constraints` unsatisfiable) with the cvc5 binary.  Sampled: every
+    VF_CROSS_EVERY-th proved obligation, at most VF_CROSS_CAP per cell.  cvc5 `sat` is a disagreement (reported by the
+    runner as inconclusive), `unknown` / timeout is counted, never treated as agreement."""
+    if not CROSS["every"]:
+        return
+    CROSS["seen"] += 1
+    if CROSS["seen"] % CROSS["every"] or CROSS["n"] >= CROSS["cap"]:
+        return
+    import subprocess
+    import tempfile
+
+    CROSS["n"] += 1
+    sv = z3.Solver()
+    for c in constraints:
+        sv.add(c)
+    body = sv.to_smt2()
+    t = time.time()
+    with tempfile.NamedTemporaryFile("w", suffix=".smt2", delete=False) as fh:
+        fh.write("(set-logic ALL)\n" + body)
+        path = fh.name
+    try:
+        r = subprocess.run(["cvc5", "--lang=smt2", "--tlimit=5000", path], stdout=subprocess.PIPE, stderr=subprocess.STDOUT, text=True, timeout=20)
+        ans = (r.stdout.strip().splitlines() or ["unknown"])[0].strip()
+        if "(error" in r.stdout:
+            ans = "unknown"
+    except Exception:  # noqa
+        ans = "unknown"
+    finally:
+        try:
+            os.unlink(path)
+        except OSError:
+            pass
+    CROSS["seconds"] += time.time() - t
+    if ans == "unsat":
+        CROSS["agree"] += 1
+    elif ans == "sat":
+        CROSS["disagree"] += 1
+        CROSS["disagreements"].append({"label": label, "smt2": body[:4000]})
+    else:
+        CROSS["unknown"] += 1
 
 
 class Violation:
@@ -292,6 +341,7 @@ class Ctx:
             self.stats.queries += 1
             if r == z3.unsat:
                 self.stats.discharged += 1
+                cross_check(list(self.path) + [z3.Not(cond)], label)
                 return True
             if r == z3.sat:
                 self.violations.append(Violation(label, self.solver.model(), detail))
@@ -299,6 +349,7 @@ class Ctx:
         r, m = discharge(self.path, cond, self.prove_timeout_ms, self.stats)
         if r == "unsat":
             self.stats.discharged += 1
+            cross_check(list(self.path) + [z3.Not(cond)], label)
             return True
         if r == "sat":
             self.violations.append(Violation(label, m, detail))
